@@ -457,6 +457,20 @@ func GenWorldCfg(g *Rng, opt GenOpts) (World, map[string]any) {
 		add(gContent{m: map[string]any{"src": "@SRC@src/exp/e.txt", "dst": "/usr/share/${VERIF_REL}/e.txt", "expand": true}, refPath: "src/exp/e.txt", refKind: "content", single: true})
 	}
 
+	// mostly entries that are addressed to single packagers, directly under /
+	// (no implicit parent directories): the list a packager prepares is then
+	// shorter than the configured list
+	if opt.SharedBias && x.feat("foreign_heavy", 0.15) {
+		contents = contents[:1]
+		contents[0].m["dst"] = "/app"
+		for i := 0; i < 5; i++ {
+			p := Pick(g, allFormats)
+			path := fmt.Sprintf("src/foreign/f%d.bin", i)
+			x.addFile(path, x.sizeSmall(), 0o644)
+			contents = append(contents, gContent{m: map[string]any{"src": "@SRC@" + path, "dst": fmt.Sprintf("/only-%s-%d", p, i), "packager": p}, pkgr: p, refPath: path, refKind: "content", single: true})
+		}
+		globFirstDst = ""
+	}
 	// a meta package: no contents at all (empty payload)
 	if x.feat("no_contents", 0.07) {
 		contents = nil
@@ -497,7 +511,7 @@ func GenWorldCfg(g *Rng, opt GenOpts) (World, map[string]any) {
 			w.ExpectFail = []string{p}
 		case "pkgr_collision":
 			p := Pick(g, allFormats)
-			c := gContent{m: map[string]any{"src": "@SRC@src/bin/app", "dst": "/usr/bin/app", "packager": p}, pkgr: p, refPath: "src/bin/app", refKind: "content", single: true}
+			c := gContent{m: map[string]any{"src": "@SRC@src/bin/app", "dst": contents[0].m["dst"], "packager": p}, pkgr: p, refPath: "src/bin/app", refKind: "content", single: true}
 			pos := g.Intn(len(contents) + 1)
 			contents = append(contents[:pos], append([]gContent{c}, contents[pos:]...)...)
 			w.ExpectFail = []string{p}
